@@ -67,6 +67,7 @@ fn directed_f1(scratch: &std::path::Path) -> Result<Option<String>, String> {
         manual_flush_every: 1000,
         hook_rotate_pct: 0,
         hook_flush_pct: 0,
+        stale_writer_after_failure: true,
     };
     let t = e2::run_worker(scratch, "f1", &cfg, &w, 77, Some("wal.fsync:3:eio:once"), None)?;
     let failed: Vec<u64> = t.failed.iter().map(|f| f.id).collect();
@@ -136,6 +137,7 @@ fn directed_f2(scratch: &std::path::Path) -> Result<Option<String>, String> {
         manual_flush_every: 5,
         hook_rotate_pct: 0,
         hook_flush_pct: 0,
+        stale_writer_after_failure: true,
     };
     let mut fired = 0;
     for ord in [3u64, 4, 5, 6, 7, 8] {
@@ -247,6 +249,7 @@ pub fn run(a: &Args) -> i32 {
         // deterministic placement so that ordinals mean the same thing in the faulty rerun
         w.manual_flush_every = *tr.pick(&[6, 9]);
         w.big_batch_pct = 0; // a transaction larger than the memtable is a directed scenario of its own
+        w.stale_writer_after_failure = true;
         if bi % 2 == 0 {
             // few hot keys: the transactions right after a failed one write the same keys, so
             // that anything the failed record still does after recovery (shadowing by sequence
@@ -387,6 +390,9 @@ pub fn run(a: &Args) -> i32 {
         }
         failed_commits.fetch_add(t.failed.len() as u64, Ordering::Relaxed);
         for f in &t.failed {
+            if f.err.contains("[SPURIOUS-CONFLICT") {
+                found.lock().unwrap().push(("poisoned".into(), format!("fault {}: transaction {} began before a commit that then failed, wrote one of that commit's keys and was refused ({}) although no commit succeeded in between", p.spec, f.id, f.err), rep.clone()));
+            }
             if f.err.contains("[VISIBLE-AFTER-ERROR]") {
                 found.lock().unwrap().push(("failed_visible".into(), format!("fault {}: commit of transaction {} returned an error ({}), yet a transaction begun right afterwards reads its marker key", p.spec, f.id, f.err), rep.clone()));
             }
